@@ -18,6 +18,8 @@ SPECS = [
     {'conv': 'cf2d', 'ny': 3, 'nx': 4, 'holes': [[1, 1]]},
     {'conv': 'shoc_standard', 'ny': 3, 'nx': 4, 'node_holes': [[0, 0], [2, 2]]},
     {'conv': 'ugrid', 'ny': 2, 'nx': 3, 'split': [[0, 1]], 'merge': [[1, 0]]},
+    # 1-D latitude / longitude coordinates that are not named after their dimensions: lat(y), lon(x)
+    {'conv': 'cf1d', 'ny': 3, 'nx': 4, 'ydim': 'y', 'xdim': 'x'},
 ]
 
 
@@ -118,6 +120,11 @@ def test(inp):
         centres = d5.ems.face_centres
         if q.N != size or not numpy.allclose(numpy.asarray(q.XY), centres, equal_nan=True):
             return 'quiver arrows are not at the face centres in linear order'
+        # independent of the convention's own face centres: arrow n lies in the polygon of cell n
+        import shapely as _sh
+        for n_, p_ in enumerate(polys):
+            if p_ is not None and not p_.buffer(1e-9).covers(_sh.Point(*numpy.asarray(q.XY)[n_])):
+                return f'quiver arrow {n_} at {tuple(numpy.asarray(q.XY)[n_])} does not lie in the polygon of cell {n_}'
         if not numpy.array_equal(numpy.asarray(q.U), lin.reshape(-1)) or not numpy.array_equal(numpy.asarray(q.V), (lin * 2).reshape(-1)):
             return 'quiver components are not those of the same cell'
         must_raise(lambda: d3.assign(s2=(['extra'] + fdims, numpy.stack([lin, lin]))).ems.make_quiver(ax, 'stack', 's2'), 'vector with leftover dimension', ValueError)
